@@ -125,6 +125,11 @@ class World:
         self.debug_logging = self.rng_spell.random() < 0.25
         self.typed_scores = self.rng_spell.random() < 0.5   # callers of the in-memory route
         self.strict_warnings = self.rng_spell.random() < 0.3
+        self.symlinked_tmp = self.rng_spell.random() < 0.3    # TMPDIR reached through a symlink
+        # a data directory that survived an upgrade: its (empty) database was initialised by
+        # the pinned release, not by the tree under test
+        self.legacy_db = self.rng_spell.random() < 0.2
+        self.legacy_made = 0
         self.node('primary')
         self.use('primary')
         self.install()
@@ -135,7 +140,36 @@ class World:
             d = os.path.join(self.root, name)
             os.makedirs(d, exist_ok=True)
             self.nodes[name] = d
+            if self.legacy_db and name in ('primary', 'second'):
+                self.make_legacy_db(os.path.join(d, 'wn.db'))
         return self.nodes[name]
+
+    def make_legacy_db(self, path):
+        """An empty database exactly as the pinned release initialises it (its schema.sql and
+        the two default ILI statuses).  If the tree under test declares that schema
+        incompatible it refuses the file, which is its right; then the world starts from
+        nothing like every other world."""
+        schema = os.path.join(os.path.dirname(os.path.dirname(os.path.abspath(__file__))),
+                              'fixtures', 'schema-pinned.sql')
+        conn = sqlite3.connect(path)
+        try:
+            with open(schema, encoding='utf-8') as fh:
+                conn.executescript(fh.read())
+            with conn:
+                conn.executemany('INSERT INTO ili_statuses VALUES (null,?)',
+                                 [('presupposed',), ('proposed',)])
+        finally:
+            conn.close()
+        saved = wn.config._data_directory      # (the getter would create the directory)
+        try:
+            wn.config.data_directory = os.path.dirname(path)
+            wn._db.connect()
+            self.legacy_made += 1
+        except wn.DatabaseError:
+            os.unlink(path)
+        finally:
+            self.restart()
+            wn.config.data_directory = saved
 
     def use(self, name):
         wn.config.data_directory = self.node(name)
@@ -188,6 +222,15 @@ class World:
         os.environ['HOME'] = self.root
         os.chdir(self.root)
         wn.config.allow_multithreading = self.multithreading
+        self._saved_tempdir = tempfile.tempdir
+        if self.symlinked_tmp:
+            # where the library puts its own temporary files (macOS: /var -> /private/var)
+            real = os.path.join(self.root, 'private', 'tmp')
+            os.makedirs(real, exist_ok=True)
+            link = os.path.join(self.root, 'tmp')
+            if not os.path.lexists(link):
+                os.symlink(os.path.join(self.root, 'private', 'tmp'), link)
+            tempfile.tempdir = link
         self._saved_loglevel = logging.getLogger('wn').level
         if self.debug_logging:
             logging.getLogger('wn').setLevel(logging.DEBUG)
@@ -206,6 +249,7 @@ class World:
         else:
             os.environ['HOME'] = home
         os.chdir(cwd)
+        tempfile.tempdir = self._saved_tempdir
         logging.getLogger('wn').setLevel(self._saved_loglevel)
         wn.config.allow_multithreading = False
         wn._db.sqlite3 = sqlite3
